@@ -81,6 +81,9 @@ package jtypes
 // The Callable interface as its callers see it: Name and ParamCount read; Call returns a value or an error (an
 // error comes with the zero Value; a value is Interface()-able) and may write evaluation-owned memory.
 // (Assumed at interface calls; of the implementations only lambdaCallable.Call is verified against it so far.)
+// Argument handlers of extensions (UndefinedHandler, EvalContextHandler): predicates on the argument list
+//@ func functype:ArgHandler
+//@   assigns nothing
 // Optional* parameters: IsSet reads the flag
 //@ func (*isSet).IsSet
 //@   requires opt != nil
